@@ -219,6 +219,16 @@ func clPlainComparatorTables(c *Ctx) {
 		fv := p.Field(s.pkg, s.typ, s.field)
 		bad := []string{}
 		var msg string
+		vals := append([]int64{}, vals...)
+		if bt, ok := fv.Type().Underlying().(*types.Basic); ok && bt.Info()&types.IsUnsigned != 0 {
+			// the whole range of the number counts: boundary values of its width
+			switch types.SizesFor("gc", "amd64").Sizeof(fv.Type()) {
+			case 4:
+				vals = append(vals, 1<<31-1, 1<<31, 1<<32-1)
+			case 8:
+				vals = append(vals, 1<<31, 1<<32+1, 1<<40)
+			}
+		}
 		for _, a := range vals {
 			for _, b := range vals {
 				ret, _, _, m := evalComparator(p, fn, 0, map[*types.Var][2]int64{fv: {a, b}})
